@@ -45,6 +45,7 @@ type Result struct {
 	Evs       []Ev            `json:"-"`
 	NEvents   int             `json:"nEvents"`
 	Leftover  bool            `json:"leftover,omitempty"`
+	LastSite  string          `json:"lastSite,omitempty"`
 	Incon     int             `json:"inconclusive,omitempty"`
 }
 
@@ -89,6 +90,7 @@ func RunScenario(t *testing.T, sc *Scenario, src simrt.Source, keepTape bool) (r
 			s.Hot = hotSites(sc.HotFuncs)
 		}
 		s.OnQuiescent = func() { fam.quiescent(w) }
+		s.MaxYields = 3000000
 		s.GoLabel("a-setup", func() { fam.setup(w) })
 		horizon := fam.horizon()
 		maxSteps := sc.MaxSteps
@@ -103,6 +105,7 @@ func RunScenario(t *testing.T, sc *Scenario, src simrt.Source, keepTape bool) (r
 		res.TraceHash = s.TraceHash
 		res.Yields, res.Preempts, res.Steps = s.Yields, s.Preempts, s.Steps
 		res.Alive = s.AliveTasks()
+		res.LastSite = simrt.SiteString(s.LastSite)
 		res.Evs = w.Evs
 		res.NEvents = len(w.Evs)
 		res.Faults, res.Probes = w.Faults, w.Probes
@@ -196,6 +199,45 @@ func failureViolations(res *Result, panicProp, deadlockProp string) {
 
 // panicSig classifies a panic by its message class (not by file:line).
 func panicSig(f simrt.Failure) string {
+	c := panicClass(f)
+	if fn := topRepoFunc(f.Stack); fn != "" {
+		return c + "/in-" + fn
+	}
+	return c
+}
+
+// topRepoFunc names the innermost function of the repository on the panicking stack
+// (closures are attributed to their enclosing function).
+func topRepoFunc(stack string) string {
+	for _, l := range strings.Split(stack, "\n") {
+		if !strings.HasPrefix(l, "github.com/zishang520/engine.io/v2/") || strings.Contains(l, "/simrt.") {
+			continue
+		}
+		l = strings.TrimPrefix(l, "github.com/zishang520/engine.io/v2/")
+		if i := strings.Index(l, "("); i > 0 && !strings.HasPrefix(l[i:], "(*") {
+			l = l[:i]
+		}
+		// "engine.(*socket).MaybeUpgrade.func3(...)" -> "socket.MaybeUpgrade"
+		l = strings.NewReplacer("(*", "", ")", "").Replace(l)
+		if i := strings.Index(l, "("); i > 0 {
+			l = l[:i]
+		}
+		parts := strings.Split(l, ".")
+		var keep []string
+		for _, p := range parts[1:] {
+			if strings.HasPrefix(p, "func") || strings.HasPrefix(p, "gowrap") || strings.HasPrefix(p, "Go") && len(p) <= 3 || p == "" || strings.HasPrefix(p, "[") {
+				break
+			}
+			keep = append(keep, p)
+		}
+		if len(keep) > 0 {
+			return strings.Join(keep, ".")
+		}
+	}
+	return ""
+}
+
+func panicClass(f simrt.Failure) string {
 	m := f.Msg
 	switch {
 	case strings.Contains(m, "nil pointer"):
@@ -254,6 +296,7 @@ type ReplayFile struct {
 	EventHash uint64       `json:"event_hash"`
 	Steps     int          `json:"steps"`
 	Minimised string       `json:"minimised,omitempty"`
+	Spin      bool         `json:"spin,omitempty"` // the run never ended (no tape): replay = run again under the watchdog
 	History   []string     `json:"history_excerpt,omitempty"`
 }
 
